@@ -267,7 +267,7 @@ def structural(tier, res):
         if isinstance(n, ast.FunctionDef) and n.name not in ('__init__',):
             add(EP + 'ExpressionContext.' + n.name, [])
     # per-instance evaluator state; the only caches are the two module dictionaries
-    out.extend(frames.check_instance_state_fresh(mod.classes['TransactionEvaluator'], 'tally.expr_parser', ['_scope', 'ctx']))
+    out.extend(frames.check_instance_state_fresh(mod.classes['TransactionEvaluator'], 'tally.expr_parser', ['_scope', 'ctx'], fresh=['_scope']))
     out.extend(frames.check_instance_state_fresh(mod.classes['ExpressionEvaluator'], 'tally.expr_parser', ['ctx']))
     # the caller of _eval_comprehension_loop passes a fresh list
     fi = find_function(EP + 'TransactionEvaluator._eval_ListComp')
